@@ -5,15 +5,130 @@
 package simsync
 
 import (
+	"fmt"
+	"sort"
 	"sync"
 	"unsafe"
 
 	"verif/sim/simrt"
 )
 
-type Map = sync.Map
-type Pool = sync.Pool
 type Locker = sync.Locker
+
+// ---- Map ----
+
+// Map is sync.Map with every operation preceded by a scheduling point (a
+// check-then-act over a concurrent map is an interleaving like one over a
+// lock) and with Range in an order the kernel decides: canonical order of the
+// keys, permuted when the world perturbs map order. The real sync.Map ranges
+// in an order that differs from process to process.
+type Map struct{ m sync.Map }
+
+func yield() {
+	if simrt.K != nil && simrt.Cur() != nil {
+		simrt.Yield()
+	}
+}
+
+func (m *Map) Load(key any) (any, bool)               { yield(); return m.m.Load(key) }
+func (m *Map) Store(key, value any)                   { yield(); m.m.Store(key, value) }
+func (m *Map) LoadOrStore(key, value any) (any, bool) { yield(); return m.m.LoadOrStore(key, value) }
+func (m *Map) LoadAndDelete(key any) (any, bool)      { yield(); return m.m.LoadAndDelete(key) }
+func (m *Map) Delete(key any)                         { yield(); m.m.Delete(key) }
+func (m *Map) Swap(key, value any) (any, bool)        { yield(); return m.m.Swap(key, value) }
+func (m *Map) CompareAndSwap(key, old, new any) bool {
+	yield()
+	return m.m.CompareAndSwap(key, old, new)
+}
+func (m *Map) CompareAndDelete(key, old any) bool { yield(); return m.m.CompareAndDelete(key, old) }
+func (m *Map) Clear()                             { yield(); m.m.Clear() }
+
+func (m *Map) Range(f func(key, value any) bool) {
+	yield()
+	type ent struct {
+		k any
+		s string
+	}
+	var ents []ent
+	m.m.Range(func(k, _ any) bool { ents = append(ents, ent{k, fmt.Sprintf("%T %#v", k, k)}); return true })
+	sort.Slice(ents, func(i, j int) bool { return ents[i].s < ents[j].s })
+	order := simrt.MapOrder(len(ents))
+	for i := range ents {
+		k := ents[i].k
+		if order != nil {
+			k = ents[order[i]].k
+		}
+		v, ok := m.m.Load(k)
+		if !ok {
+			continue
+		}
+		if !f(k, v) {
+			return
+		}
+	}
+}
+
+// ---- Pool ----
+
+// Pool models sync.Pool: Get returns any item put before or a new one - which
+// of them is the kernel's choice (the real pool keeps items per processor and
+// drops them at garbage collections, so what Get returns differs from run to
+// run; here it is on the tape). Put/Get carry the happens-before edge the real
+// pool reports to the race detector.
+type Pool struct {
+	New   func() any
+	items [64]any
+	n     int
+	real  sync.Pool
+}
+
+//go:norace
+func (p *Pool) Get() any {
+	if simrt.K == nil || simrt.Cur() == nil {
+		if v := p.real.Get(); v != nil {
+			return v
+		}
+		if p.New != nil {
+			return p.New()
+		}
+		return nil
+	}
+	simrt.Yield()
+	n := p.n
+	if n > 0 {
+		// n items and "the pool lost them": mostly hand out an item
+		i := simrt.Pick(n + 1)
+		if i < n {
+			v := p.items[i]
+			p.items[i] = p.items[n-1]
+			p.items[n-1] = nil
+			p.n = n - 1
+			simrt.RaceAcquire(unsafe.Pointer(p))
+			return v
+		}
+	}
+	if p.New != nil {
+		return p.New()
+	}
+	return nil
+}
+
+//go:norace
+func (p *Pool) Put(x any) {
+	if x == nil {
+		return
+	}
+	if simrt.K == nil || simrt.Cur() == nil {
+		p.real.Put(x)
+		return
+	}
+	simrt.Yield()
+	simrt.RaceReleaseMerge(unsafe.Pointer(p))
+	if p.n < len(p.items) {
+		p.items[p.n] = x
+		p.n++
+	}
+}
 
 // ---- Mutex ----
 
